@@ -306,6 +306,21 @@ let io_line line =
       (hex (written @ repeat_n (z_of_int 0xEE) (room - List.length written))) (room - List.length written)
   | _ -> "bad"
 
+(* ---- reversed bit reader: both the 64-bit container machine and the abstract reader; same line format as zh bits ---- *)
+let bits_line which line =
+  match List.filter (fun x -> x <> "") (split_on ' ' line) with
+  | src :: ops ->
+    let parse op =
+      if op.[0] = 'g' then M.Inl (z_of_string (after op 1))
+      else (match List.map z_of_string (split_on ',' (after op 1)) with
+            | [a; b; c] -> M.Inr ((a, b), c) | _ -> failwith "bad op") in
+    let ops = List.map parse ops in
+    let show l = String.concat " " (List.map (fun (vs, c) -> String.concat "," (List.map z_to_string vs) ^ ":" ^ z_to_string c) l) in
+    if which = 0 then
+      (match M.brr_run (M.brr_new (unhex src)) ops with M.ROk l -> show l | _ -> "panic")
+    else show (M.rbr_run (M.rbr_new (unhex src)) ops)
+  | _ -> "bad"
+
 let () =
   let cmd = if Array.length Sys.argv > 1 then Sys.argv.(1) else "" in
   let f = match cmd with
@@ -315,6 +330,8 @@ let () =
     | "matcher" -> matcher_line
     | "frame" -> frame_line
     | "io" -> io_line
+    | "bits64" -> bits_line 0
+    | "bitsabs" -> bits_line 1
     | _ -> prerr_endline "usage: driver <prog|fse|huf> < cases"; exit 2 in
   (try
     while true do
